@@ -1,14 +1,5 @@
 From WB Require Import Base.Str Base.StrFacts Base.Json Model.Key Model.Store Model.Match Model.Subs Model.Entry Model.Core
-  Proofs.StoreFacts Proofs.TreeInv.
-
-(* a pattern without `#` matches a parent path segment by segment *)
-Fixpoint parent_match (p : list kseg) (k : list str) : bool :=
-  match p, k with
-  | [], [] => true
-  | Wild :: p', _ :: k' => parent_match p' k'
-  | Reg s :: p', x :: k' => str_eqb s x && parent_match p' k'
-  | _, _ => false
-  end.
+  Spec.MapSpec Proofs.StoreFacts Proofs.TreeInv.
 
 Lemma collect_children_nil {V} (n : node V) : collect_children n [] = names (nkids n).
 Proof. destruct n; reflexivity. Qed.
